@@ -171,7 +171,7 @@ func explore(l *loaded, insts []Inst, opt options) ([]*instResult, runStats, err
 				e.Cfg = exec.Config{Unwind: ir.Inst.Unwind, ContextBound: ir.Inst.Ctx, RaceCheck: ir.Inst.Race,
 					MaxSched: ir.Inst.MaxSched, Trace: opt.trace, MaxSteps: 4000000}
 				if e.Cfg.Unwind == 0 {
-					e.Cfg.Unwind = 300
+					e.Cfg.Unwind = 1200
 				}
 				if e.Cfg.MaxSched == 0 {
 					e.Cfg.MaxSched = 5000
